@@ -1,6 +1,6 @@
-\* y s v a ( ) { } m z  up to 5;  + h i g o up to 4;  every type code + brackets + m + z + NUL up to 3
+\* y v a ( ) { } m  up to 5 (every structural shape);  + s h i g o z up to 4;  every type code + brackets + m + z + NUL up to 3
 CONSTANTS
-  A1 = {121, 115, 118, 97, 40, 41, 123, 125, 109, 122}
+  A1 = {121, 118, 97, 40, 41, 123, 125, 109}
   L1 = 5
   A2 = {121, 105, 115, 118, 97, 40, 41, 123, 125, 109, 104, 103, 111, 122}
   L2 = 4
